@@ -77,7 +77,12 @@ def gen(seed, idx, tier):
   elif scope == "kernels":
     sched["pick_kernels"] = int(r.integers(1, 4))
     sched["pick_seed"] = int(r.integers(1 << 30))
+  ro = _rng.gen("c11op", seed, idx)  # separate stream (added later): the other draws of a run are unchanged
+  op_override = None
+  if ro.random() < 0.2:
+    op_override = str(ro.choice(["step12", "reset", "reset_key"]))
   return {
+    "op_override": op_override,
     "property": ID, "seed": seed, "idx": idx, "model": spec, "nworld": int(r.choice([1, 2, 3, 4])), "rejected_models": rejected,
     "init": {"seed": int(r.integers(1 << 30)), "pos_noise": 0.12, "vel_noise": 0.8, "act_noise": 0.3},
     "scramble": {"seed": int(r.integers(1 << 30)), "pos_noise": 0.5, "vel_noise": 3.0, "act_noise": 1.0},
@@ -115,14 +120,37 @@ def run(sc):
   seams.set_alloc("ZERO")
   R = core.make_data(mjm, m, {"nworld": nworld, "how": "make", "caps": ample, "init": sc["init"]})
   cr = core.Ctx(mjm, m, R)
-  op = sc["op"]
+  op = sc.get("op_override") or sc["op"]
+  if op == "reset_key" and not mjm.nkey:
+    op = "reset"
+  if op == "step12" and int(mjm.opt.integrator) == 1:
+    op = "step"  # step1/step2 are defined for the Euler and implicit integrators only
   if op == "step" and int(mjm.opt.integrator) == 1:  # mjINT_RK4
     # RK4 re-evaluates forward() at states built from the solver output of the previous stage: round-off of a re-ordered sum is
     # amplified across stages through contact activation (observed: contact.frame 2.5e-3 apart after permuting two kernels).
     # The single-evaluation op is compared instead; the RK4 combination kernels are element-wise.
     op = "forward"
     fault("rk4_step_replaced_by_forward")
-  do = (lambda d: mjw.step(m, d)) if op == "step" else (lambda d: mjw.forward(m, d))
+  import warp as wp
+
+  def do(d):
+    if op == "step":
+      mjw.step(m, d)
+    elif op == "forward":
+      mjw.forward(m, d)
+    elif op == "step12":
+      mjw.step1(m, d)
+      mjw.step2(m, d)
+    elif op == "reset":
+      # the reset kernels run under the schedule as well: every second world (world 0 unselected, so that the listed
+      # contacts-of-world-0 finding of C13 is not involved), then a step so that what the reset left behind is consumed
+      mjw.reset_data(m, d, wp.array(np.arange(nworld) % 2 == 1, dtype=bool))
+      mjw.forward(m, d)
+    elif op == "reset_key":
+      mjw.reset_data_keyframe(m, d, wp.array((np.arange(nworld, dtype=np.int32) % (mjm.nkey + 1)) - 1, dtype=int))
+      mjw.forward(m, d)
+    else:
+      raise ValueError(op)
   viols = []
   mode = sc["sched"]["default"][0]
   kernels_perm = set()
